@@ -150,8 +150,6 @@ structure Params where
   hasUnprintable : List UInt8 → Bool
   /-- `char::is_whitespace` (std), used by `ends_like_modifier` -/
   isSpaceStd : Char → Bool
-  /-- `String::from_utf8_lossy` -/
-  lossy : List UInt8 → List Char
 
 /-- an `Expectation` as `unmake()` shows it -/
 structure Expectation where
@@ -242,8 +240,9 @@ def toExpressionString (P : Params) (e : Expectation) : List Char :=
   | .glob =>
     if unprintable then r ++ escapedMarker ++ [' ', '('] ++ Kind.glob.name ++ q ++ [')']
     else r ++ [' ', '('] ++ Kind.glob.name ++ q ++ [')']
-  | .regex => P.lossy e.expr ++ [' ', '('] ++ Kind.regex.name ++ q ++ [')']
-  | .noEol => P.lossy e.expr ++ [' ', '('] ++ Kind.noEol.name ++ q ++ [')']
+  -- no escaped form of these kinds can be read back: the printable rendering is for display
+  | .regex => r ++ [' ', '('] ++ Kind.regex.name ++ q ++ [')']
+  | .noEol => r ++ [' ', '('] ++ Kind.noEol.name ++ q ++ [')']
 
 /-- Unicode `White_Space` (what `\s` means in the regex crate); sampled against the crate by the harness -/
 def unicodeWhite (c : Char) : Bool :=
@@ -277,8 +276,8 @@ def sourceText (P : Params) (e : Expectation) : List Char :=
   | .equal => P.escPrintable e.expr
   | .escaped => if P.hasUnprintable e.expr then P.escPrintable e.expr else doubleBackslash (P.escPrintable e.expr)
   | .glob => if P.hasUnprintable e.expr then P.escPrintable e.expr ++ escapedMarker else P.escPrintable e.expr
-  | .regex => P.lossy e.expr
-  | .noEol => P.lossy e.expr
+  | .regex => P.escPrintable e.expr
+  | .noEol => P.escPrintable e.expr
 
 /-- what the canonical form of `e` is expected to read back as -/
 def reread (P : Params) (e : Expectation) : Expectation := { e with kind := sourceKind P e }
